@@ -259,7 +259,9 @@ func fillAllTransitions(forward *NFA, builder *Builder, reverseEdges map[StateID
 		edges := reverseEdges[fwdID]
 
 		if isStart && hasIncoming {
-			fillStartStateWithIncoming(builder, revID, edges, revStateMap, matchID)
+			// Byte-consuming loops are real pattern loops only on the anchored start;
+			// on the unanchored start they are the (?s:.)*? prefix, which must stay inert.
+			fillStartStateWithIncoming(builder, revID, edges, revStateMap, matchID, fwdID == fwdAnchored)
 		} else {
 			fillReverseState(builder, revID, edges, revStateMap)
 		}
@@ -402,7 +404,7 @@ func fillReverseState(builder *Builder, revID StateID, edges []reverseEdge, revS
 
 // fillStartStateWithIncoming handles forward start states that have incoming edges (loops)
 // The proxy state is already an epsilon -> match, but we need to add the loop transitions
-func fillStartStateWithIncoming(builder *Builder, proxyID StateID, edges []reverseEdge, revStateMap map[StateID]StateID, matchID StateID) {
+func fillStartStateWithIncoming(builder *Builder, proxyID StateID, edges []reverseEdge, revStateMap map[StateID]StateID, matchID StateID, byteLoops bool) {
 	// The proxy is currently epsilon -> match
 	// If we have incoming edges (from loops), we need to create a split:
 	// proxyID: split -> (transitions from incoming edges), match
@@ -411,6 +413,12 @@ func fillStartStateWithIncoming(builder *Builder, proxyID StateID, edges []rever
 	var loopTargets []StateID
 	for _, edge := range edges {
 		if revTarget, ok := revStateMap[edge.from]; ok {
+			if byteLoops && edge.kind != edgeEpsilon {
+				// Byte-consuming loop edge into the start state (e.g. `a*b`: a -> start).
+				// The reverse transition must consume the same byte range; treating it
+				// as epsilon drops the loop body from the reverse NFA.
+				revTarget = builder.AddByteRange(edge.lo, edge.hi, revTarget)
+			}
 			loopTargets = append(loopTargets, revTarget)
 		}
 	}
